@@ -198,7 +198,58 @@ def regen_check():
     return n, vs
 
 
+def workout():
+    """Uses the library the way the other checks do (loads, saves, clones, MetaModule mappings onto every
+    controller kind, a file with an unknown module type, lenient loads of out-of-range values): class-level
+    metadata must be the same afterwards — it is what maps stored values to controllers."""
+    import rv.api as rv
+    from checks import c15
+    from rvref import codec
+
+    n = 0
+    for f in treeenv.fixture_files():
+        o = rv.read_sunvox_file(f)
+        C.load_bytes(C.save(o))
+        n += 1
+
+    class _Q:
+        thorough = False
+        seed = 0
+    for case in c15.object_cases(_Q):
+        if case["label"].startswith(("mapping", "nesting")):
+            try:
+                o = c15.build_object(case)
+                C.load_bytes(C.save(o))
+                n += 1
+            except Exception:
+                pass
+    for tkey in spec.types():
+        if tkey == "Output":
+            continue
+        m = getattr(rv.m, tkey)()
+        for name, c in list(m.controllers.items())[:40]:
+            if name.startswith("user_defined"):
+                continue
+            t = c.instance_value_type(m)
+            if hasattr(t, "max"):
+                setattr(m, name, t.max)
+                setattr(m, name, t.min)
+        m.clone()
+        n += 1
+    # a file naming a module type the specification does not have
+    data = C.save(rv.Synth(rv.m.Amplifier()))
+    chunks = [(cid, (b"No such type\0" if cid == b"STYP" else d)) for cid, d in codec.parse_chunks(data)]
+    try:
+        C.load_bytes(codec.build_chunks(chunks))
+    except Exception:
+        pass
+    n += 1
+    return n
+
+
 def run_case(case):
+    if case.get("after_use"):
+        workout()
     if case.get("registry"):
         return registry_check()[1]
     if case.get("regen"):
@@ -220,6 +271,18 @@ def run(ctx):
         ctx.add(v)
     k, v = regen_check()
     ctx.add(v)
+    # second pass AFTER the library has been used in this process
+    used = workout()
+    n2, vs2 = registry_check()
+    for tkey in spec.types():
+        kk, vv = compare_type(tkey)
+        n2 += kk
+        vs2 += vv
+    for x in vs2:
+        x["key"] = dict(x["key"], after_use=True)
+        x["case"] = dict(x.get("case") or {}, after_use=True)
+    ctx.add(vs2)
+    n += n2
     nctl = sum(len(t.controllers) for t in spec.types().values())
     nopt = sum(len(t.options) for t in spec.types().values())
     return {
@@ -229,6 +292,7 @@ def run(ctx):
                 "option, enum, array chunk; plus byte comparison of all regenerated base files; each comparison is a "
                 "distinct (type, field) pair",
         "exhaustive": True,
+        "comparisons_repeated_after_use": n2, "workout_operations": used,
         "types": len(per_type), "controllers": nctl, "options": nopt, "regenerated_files": k,
         "samples": [{"type": "Adsr", "fields_compared": per_type.get("Adsr")},
                     {"type": "MetaModule", "fields_compared": per_type.get("MetaModule")}],
